@@ -16,6 +16,47 @@ SCOPE = ("Decides the transcription and clamp structure of the TFRC sender: the 
 SR = "half_connection::send_rate::"
 
 
+def inst_recv_set(cx, iid):
+    R = cx.R
+    with cx.instance(iid, "T7 SHAPE + T4", "X_recv_set (RFC 5348 4.3): each update returns the limit it leaves stored; loss increase halves the entries and maximises with 0.85 X_recv; the initial rate is one segment per second", floor=5) as inst:
+        RS = "half_connection::recv_rate_set::RecvRateSet::"
+        from rules import canon_value
+        want = {
+            "loss_increase_update": r"RecvRateSet::replace_max\(arg1,arg2,cast<u32>\(mul\((0\.85,cast<f64>\(arg3\)|cast<f64>\(arg3\),0\.85)\)\)\)",
+            "data_limited_update": r"RecvRateSet::replace_max\(arg1,arg2,arg3\)",
+            "rate_limited_update": r"RecvRateSet::max\(arg1\)",
+        }
+        for fn, rx in want.items():
+            b = R.body(RS + fn)
+            got = show(canon_value(cx, b, b.local_expr(0)))
+            inst.site(b, None, "%s returns %s" % (fn, got[:100]))
+            if not re.fullmatch(rx, got):
+                inst.violation(b.path, fn + " result", "%s returns `%s`: the limit applied to this feedback differs from the one left in X_recv_set (the next no-feedback expiry recomputes from the stored one and may raise the rate)" % (fn, got[:140]))
+        rm = R.body(RS + "replace_max")
+        ret = rm.local_expr(0)
+        resets = [show(rm.call_expr(t)) for l, t in rm.calls("RecvRateSet::reset")]
+        inst.site(rm, None, "replace_max: reset calls %s, returns %s" % (resets, show(ret)))
+        if len(resets) != 1 or resets[0] != "RecvRateSet::reset(arg1,arg2,%s)" % show(ret):
+            inst.violation(rm.path, "replace_max", "replace_max stores %s but returns `%s`" % (resets, show(ret)))
+        vals = sorted(show(v) for _, v in [(a, c) for a, c in __import__("rules").case_values(cx, rm, ret)])
+        if vals != ["Ord::max(RecvRateSet::max(arg1),arg3)", "arg3"] and vals != ["Ord::max(arg3,RecvRateSet::max(arg1))", "arg3"]:
+            inst.violation(rm.path, "replace_max value", "replace_max maximises over %s, expected {X_recv if the set is empty, max(set, X_recv) otherwise}" % vals)
+        lu = R.body(RS + "loss_increase_update")
+        halv = [show(lu.rvalue_expr(n["rv"])) for l, n, ps in lu.field_writes(r".*\.value") if n["k"] == "assign"]
+        inst.site(lu, None, "loss_increase_update halves: %s" % halv)
+        if len(halv) != 1 or not re.fullmatch(r"div\(.*\.value,2\)", halv[0]):
+            inst.violation(lu.path, "halving", "loss_increase_update does not halve the entries of X_recv_set (%s)" % halv)
+        sn = R.body("SendRateComp::new")
+        for loc, s_ in sn.assigns():
+            rv = s_["rv"]
+            if rv["k"] == "agg" and rv.get("adt", "").endswith("SendRateComp"):
+                v = show(sn.operand_expr(rv["ops"][rv["fields"].index("send_rate")]))
+                inst.site(sn, loc, "initial send_rate = " + v)
+                if v not in ("cast<u32>(half_connection::send_rate::MSS)", "half_connection::send_rate::MINIMUM_RATE") and not re.fullmatch(r"Ord::min\(.*arg1.*\)", v):
+                    inst.violation(sn.path, "initial rate", "a new rate computer starts at `%s`: the initial rate is the only one that is not clamped to the ceiling, and must be one segment per second (within every admissible ceiling)" % v, at=sn.span_at(loc))
+
+
+
 def run(cx):
     R = cx.R
     with cx.instance("C14.a", "T7 SHAPE (AC-normal form)", "TCP throughput equation, RTT filter, RTO and initial rates are the RFC 5348 expressions", floor=6) as inst:
@@ -194,6 +235,7 @@ def run(cx):
                     inst.violation(b.path, "timer value", "the no-feedback timer is re-armed at `%s`, expected now + s_to_ms(RTO)" % v[:140], at=b.span_at(l))
             cx.followed_by(inst, b, [(Loc(0, -1), "entry of " + fn.split("::")[-1])], [l for l, _ in ws], "no-feedback timer not re-armed", "nofeedback_exp_ms = Some(now + RTO)")
 
+    inst_recv_set(cx, "C14.h")
     from props.C13 import ceiling_clamp
     ceiling_clamp(cx, "C14.d")
     from props.shared import ack_processing_presence
